@@ -7,15 +7,15 @@ CONSTANTS
   ClearCountsRows = TRUE
   MCModes <- AllModes
   MCWidths <- W1
-  MCGaps <- Gaps2
+  MCGaps <- GapOn
   MCFormats <- FmtNormal
   MCMax <- Max2
   Ticks <- TicksQ
-  StartArgs <- StartQ
+  StartArgs <- StartOne
   AdvArgs <- AdvQ
   SetArgs <- SetQ
   Msgs <- NoMsgs
-  Depth = 5
+  Depth = 4
 VIEW HView
 PROPERTY PFrameShape
 PROPERTY PBarWidth
@@ -29,3 +29,4 @@ INVARIANT PlainOwnLine
 PROPERTY PQuiet
 INVARIANT TermOK
 PROPERTY PPlainOps
+INVARIANT Emit
